@@ -231,6 +231,9 @@ def refpeer_rekey(role, when, c1, c2, initiator):
     """returns (violations, info).  c1/c2 = (cipher, mac) before/after the re-exchange"""
     viol = []
     algs = dict(encryption_algs=[c1[0], c2[0]], mac_algs=[m for m in (c1[1], c2[1]) if m] or ())
+    comp = lambda c: c[2] if len(c) > 2 else 'none'
+    if comp(c1) != 'none' or comp(c2) != 'none':
+        algs['compression_algs'] = [comp(c1), comp(c2)]
     data_a = bytes(range(200)) * 3
     data_b = bytes(range(50, 250)) * 2
     if role == 'server':
@@ -242,17 +245,18 @@ def refpeer_rekey(role, when, c1, c2, initiator):
         so = dict(algs)
         if initiator == 'asyncssh':
             so['rekey_bytes'] = 256
-        w = H.SrvWorld(env=env, sopts=so, rp_kw=dict(ciphers=[c1[0]], macs=[c1[1] or 'hmac-sha1']))
+        w = H.SrvWorld(env=env, sopts=so, rp_kw=dict(ciphers=[c1[0]], macs=[c1[1] or 'hmac-sha1'], comps=[comp(c1)]))
     else:
         co = dict(algs)
         if initiator == 'asyncssh':
             co['rekey_bytes'] = 256
-        w = H.CliWorld(copts=co, rp_kw=dict(ciphers=[c1[0]], macs=[c1[1] or 'hmac-sha1']))
+        w = H.CliWorld(copts=co, rp_kw=dict(ciphers=[c1[0]], macs=[c1[1] or 'hmac-sha1'], comps=[comp(c1)]))
     rp = w.rp
     try:
         def rekey_now():
             rp.ciphers_cs = rp.ciphers_sc = [c2[0]]
             rp.macs_cs = rp.macs_sc = [c2[1] or 'hmac-sha1']
+            rp.comps_cs = rp.comps_sc = [comp(c2)]
             if initiator == 'refpeer':
                 rp.send_kexinit()
             w.flush()
@@ -261,6 +265,7 @@ def refpeer_rekey(role, when, c1, c2, initiator):
             sid = rp.session_id
             rp.ciphers_cs = rp.ciphers_sc = [c2[0]]
             rp.macs_cs = rp.macs_sc = [c2[1] or 'hmac-sha1']
+            rp.comps_cs = rp.comps_sc = [comp(c2)]
             rp.send(rp.service_request())
             w.flush()
             rp.send(rp.password_request('user', 'pw'))
@@ -295,6 +300,7 @@ def refpeer_rekey(role, when, c1, c2, initiator):
             sid = rp.session_id
             rp.ciphers_cs = rp.ciphers_sc = [c2[0]]
             rp.macs_cs = rp.macs_sc = [c2[1] or 'hmac-sha1']
+            rp.comps_cs = rp.comps_sc = [comp(c2)]
             if when == 'after-auth':
                 rekey_now()
             chan, sess = w.run(w.conn.create_session(lambda: P.RecSession('cli'), encoding=None))
@@ -356,7 +362,9 @@ def b_worker(job):
 
 def b_jobs():
     suites = [('aes128-ctr', 'hmac-sha2-256'), ('aes256-gcm@openssh.com', None),
-              ('chacha20-poly1305@openssh.com', None), ('aes128-cbc', 'hmac-sha1-etm@openssh.com')]
+              ('chacha20-poly1305@openssh.com', None), ('aes128-cbc', 'hmac-sha1-etm@openssh.com'),
+              # with compression: a re-exchange starts fresh compression contexts in both directions
+              ('aes128-ctr', 'hmac-sha2-256', 'zlib@openssh.com'), ('chacha20-poly1305@openssh.com', None, 'zlib')]
     jobs = []
     for role in ('server', 'client'):
         for initiator in ('refpeer', 'asyncssh'):
